@@ -294,6 +294,255 @@ fn run_ucase(c: &UCase, rep: &mut Report) {
     rep.case(&c.name, rejected > 0);
 }
 
+// ---------------------------------------------------------------------------------------------
+// constraints ADDED BY ALTER to non-empty tables, with a violating stored row at every position
+// ---------------------------------------------------------------------------------------------
+
+/// predicate shapes over T(C0 INT PRIMARY KEY, X INT, Y INT, S VARCHAR(10)) with an evaluator that is
+/// independent of the engine and of the Lean model (three-valued: None = NULL)
+#[derive(Clone, Debug)]
+enum P {
+    Cmp(&'static str, usize, i64),      // col op const
+    CmpCols(&'static str),              // X op Y
+    Between(usize, i64, i64, bool),     // col [NOT] BETWEEN lo AND hi
+    In(usize, Vec<i64>, bool),          // col [NOT] IN (...)
+    IsNull(usize, bool),                // col IS [NOT] NULL
+    Arith(&'static str, i64),           // X + Y op const
+    Like(&'static str, bool),           // S [NOT] LIKE 'pat' (prefix% patterns)
+    And(Box<P>, Box<P>),
+    Or(Box<P>, Box<P>),
+    Not(Box<P>),
+}
+
+type ARow = (i64, Option<i64>, Option<i64>, Option<String>);
+
+fn cmp(op: &str, a: i64, b: i64) -> bool {
+    match op {
+        "=" => a == b,
+        "<>" => a != b,
+        "<" => a < b,
+        "<=" => a <= b,
+        ">" => a > b,
+        _ => a >= b,
+    }
+}
+
+impl P {
+    fn sql(&self) -> String {
+        let c = |i: &usize| ["C0", "X", "Y"][*i];
+        match self {
+            P::Cmp(op, i, k) => format!("{} {} {}", c(i), op, k),
+            P::CmpCols(op) => format!("X {} Y", op),
+            P::Between(i, lo, hi, neg) => format!("{} {}BETWEEN {} AND {}", c(i), if *neg { "NOT " } else { "" }, lo, hi),
+            P::In(i, vs, neg) => format!("{} {}IN ({})", c(i), if *neg { "NOT " } else { "" }, vs.iter().map(|v| v.to_string()).collect::<Vec<_>>().join(", ")),
+            P::IsNull(i, neg) => format!("{} IS {}NULL", c(i), if *neg { "NOT " } else { "" }),
+            P::Arith(op, k) => format!("X + Y {} {}", op, k),
+            P::Like(pat, neg) => format!("S {}LIKE '{}'", if *neg { "NOT " } else { "" }, pat),
+            P::And(a, b) => format!("(({}) AND ({}))", a.sql(), b.sql()),
+            P::Or(a, b) => format!("(({}) OR ({}))", a.sql(), b.sql()),
+            P::Not(a) => format!("(NOT ({}))", a.sql()),
+        }
+    }
+    fn eval(&self, r: &ARow) -> Option<bool> {
+        let col = |i: &usize| match i { 0 => Some(r.0), 1 => r.1, _ => r.2 };
+        match self {
+            P::Cmp(op, i, k) => col(i).map(|v| cmp(op, v, *k)),
+            P::CmpCols(op) => Some(cmp(op, r.1?, r.2?)),
+            P::Between(i, lo, hi, neg) => col(i).map(|v| (v >= *lo && v <= *hi) != *neg),
+            P::In(i, vs, neg) => col(i).map(|v| vs.contains(&v) != *neg),
+            P::IsNull(i, neg) => Some(col(i).is_none() != *neg),
+            P::Arith(op, k) => Some(cmp(op, r.1? + r.2?, *k)),
+            P::Like(pat, neg) => r.3.as_ref().map(|s| s.starts_with(pat.trim_end_matches('%')) != *neg),
+            P::And(a, b) => match (a.eval(r), b.eval(r)) {
+                (Some(false), _) | (_, Some(false)) => Some(false),
+                (Some(true), Some(true)) => Some(true),
+                _ => None,
+            },
+            P::Or(a, b) => match (a.eval(r), b.eval(r)) {
+                (Some(true), _) | (_, Some(true)) => Some(true),
+                (Some(false), Some(false)) => Some(false),
+                _ => None,
+            },
+            P::Not(a) => a.eval(r).map(|b| !b),
+        }
+    }
+    fn kind(&self) -> &'static str {
+        match self {
+            P::Cmp(..) => "cmp", P::CmpCols(..) => "cmp_cols", P::Between(_, _, _, false) => "between", P::Between(..) => "not_between",
+            P::In(_, _, false) => "in", P::In(..) => "not_in", P::IsNull(..) => "is_null", P::Arith(..) => "arith",
+            P::Like(_, false) => "like", P::Like(..) => "not_like", P::And(..) => "and", P::Or(..) => "or", P::Not(..) => "not",
+        }
+    }
+}
+
+fn arow_sql(r: &ARow) -> String {
+    let o = |v: &Option<i64>| v.map(|i| i.to_string()).unwrap_or_else(|| "NULL".into());
+    format!("({}, {}, {}, {})", r.0, o(&r.1), o(&r.2), r.3.as_ref().map(|s| format!("'{}'", s)).unwrap_or_else(|| "NULL".into()))
+}
+
+fn gen_pred(r: &mut Rng, depth: u32) -> P {
+    let ops = ["=", "<>", "<", "<=", ">", ">="];
+    let k = r.below(if depth == 0 { 9 } else { 12 });
+    match k {
+        0 => P::Cmp(*r.pick(&ops), 1 + r.below(2) as usize, r.range(0, 6)),
+        1 => P::CmpCols(*r.pick(&ops)),
+        2 | 3 => { let lo = r.range(0, 4); P::Between(1 + r.below(2) as usize, lo, lo + r.range(0, 3), r.chance(1, 3)) }
+        4 => P::In(1 + r.below(2) as usize, (0..1 + r.below(3)).map(|_| r.range(0, 6)).collect(), r.chance(1, 3)),
+        5 => P::IsNull(1 + r.below(2) as usize, r.chance(1, 2)),
+        6 => P::Arith(*r.pick(&ops), r.range(0, 10)),
+        7 | 8 => P::Like(*r.pick(&["ab%", "a%", "xy%"]), r.chance(1, 3)),
+        9 => P::And(Box::new(gen_pred(r, depth - 1)), Box::new(gen_pred(r, depth - 1))),
+        10 => P::Or(Box::new(gen_pred(r, depth - 1)), Box::new(gen_pred(r, depth - 1))),
+        _ => P::Not(Box::new(gen_pred(r, depth - 1))),
+    }
+}
+
+fn gen_arow(r: &mut Rng, id: i64) -> ARow {
+    let v = |r: &mut Rng| if r.chance(1, 7) { None } else { Some(r.range(0, 6)) };
+    (id, v(r), v(r), if r.chance(1, 7) { None } else { Some(r.pick(&["abc", "abd", "axy", "xyz", "b"]).to_string()) })
+}
+
+/// ALTER TABLE T ADD CONSTRAINT … CHECK (pred) over `rows`: accepted iff no stored row makes it FALSE;
+/// afterwards the declared CHECK holds for every stored row (independent evaluator and
+/// `SELECT COUNT(*) … WHERE NOT (pred)`), and a rejected ALTER left the schema unchanged
+fn run_alter_check(name: &str, rows: &[ARow], pred: &P, rep: &mut Report) {
+    let mut db = Db::new();
+    db.must("CREATE TABLE T (C0 INT PRIMARY KEY, X INT, Y INT, S VARCHAR(10))");
+    if !rows.is_empty() {
+        db.must(&format!("INSERT INTO T VALUES {}", rows.iter().map(arow_sql).collect::<Vec<_>>().join(", ")));
+    }
+    let first_bad = rows.iter().position(|r| pred.eval(r) == Some(false));
+    let out = db.exec(&format!("ALTER TABLE T ADD CONSTRAINT CK CHECK ({})", pred.sql()));
+    rep.count(&format!("alter_check_{}", pred.kind()));
+    rep.count(&format!("alter_check_first_violating_row_{}", match first_bad { None => "none".to_string(), Some(0) => "first".to_string(), Some(p) if p + 1 == rows.len() => "last".to_string(), Some(_) => "middle".to_string() }));
+    let cnt = db.exec(&format!("SELECT COUNT(*) FROM T WHERE NOT ({})", pred.sql()));
+    let cnt_false = cnt.rows().and_then(|r| r.first().and_then(|x| x.first().cloned())).map(|v| canon::val(&v));
+    let script = |db: &Db| format!("{}\nfirst violating row (independent evaluation): {:?}", db.log.join(";\n"), first_bad);
+    if out.is_panic() {
+        rep.fail(FailKind::Oracle, None, "ALTER TABLE ADD CHECK panicked", &script(&db));
+    } else if out.is_ok() && (first_bad.is_some() || cnt_false.as_deref() != Some("I0")) {
+        rep.fail(FailKind::Oracle, None, &format!("ALTER TABLE ADD CHECK accepted although a stored row violates it ({} predicate)", pred.kind()),
+            &format!("{}\nSELECT COUNT(*) WHERE NOT (check) = {:?}", script(&db), cnt_false));
+    } else if !out.is_ok() && first_bad.is_none() && out_class(&out) == "err constraint" {
+        rep.fail(FailKind::ModelDiff, None, &format!("ALTER TABLE ADD CHECK refused although every stored row satisfies it ({} predicate)", pred.kind()), &script(&db));
+    }
+    // the schema after the ALTER: enforced iff accepted
+    if let Some(probe) = (0..40).map(|i| gen_arow(&mut Rng::new(1000 + i), 900)).find(|r| pred.eval(r) == Some(false)) {
+        let ins = db.exec(&format!("INSERT INTO T VALUES {}", arow_sql(&probe)));
+        if out.is_ok() && ins.is_ok() {
+            rep.fail(FailKind::Oracle, None, "row violating a CHECK added by an accepted ALTER was stored", &script(&db));
+        } else if out.is_err() && !ins.is_ok() && out_class(&ins) == "err constraint" {
+            rep.fail(FailKind::Oracle, None, "a rejected ALTER TABLE ADD CHECK left the constraint in the schema", &script(&db));
+        }
+    }
+    rep.case(&format!("{} {} {:?}", name, pred.sql(), rows), rows.len() >= 2);
+}
+
+/// ADD PRIMARY KEY / UNIQUE / FOREIGN KEY / SET NOT NULL over existing rows, the violating row at `pos`
+fn run_alter_key(kind: &str, n: usize, pos: Option<usize>, rep: &mut Report) {
+    let mut db = Db::new();
+    db.must("CREATE TABLE P (ID INT PRIMARY KEY)");
+    db.must("INSERT INTO P VALUES (1), (2), (3), (4), (5), (6)");
+    db.must("CREATE TABLE T (C0 INT, X INT, Y INT)");
+    // row j: C0 = j+1, X = j+1 (distinct, a P key); the violating row duplicates row 0's X / has X = NULL / X = 99
+    let rows: Vec<String> = (0..n)
+        .map(|j| {
+            let x = match (kind, pos) {
+                ("pk", Some(p)) | ("unique", Some(p)) if j == p => if p == 0 { "2".to_string() } else { "1".to_string() },
+                ("pk_null", Some(p)) | ("not_null", Some(p)) if j == p => "NULL".to_string(),
+                ("fk", Some(p)) if j == p => "99".to_string(),
+                _ => (j + 1).to_string(),
+            };
+            format!("({}, {}, {})", j + 1, x, j)
+        })
+        .collect();
+    db.must(&format!("INSERT INTO T VALUES {}", rows.join(", ")));
+    if kind == "unique" || kind == "fk" || kind == "not_null" {
+        // NULL keys never violate UNIQUE / FOREIGN KEY
+        if kind != "not_null" {
+            db.must("INSERT INTO T VALUES (50, NULL, 0), (51, NULL, 0)");
+        }
+    }
+    let sql = match kind {
+        "pk" | "pk_null" => "ALTER TABLE T ADD CONSTRAINT APK PRIMARY KEY (X)",
+        "unique" => "ALTER TABLE T ADD CONSTRAINT AUQ UNIQUE (X)",
+        "fk" => "ALTER TABLE T ADD CONSTRAINT AFK FOREIGN KEY (X) REFERENCES P (ID)",
+        _ => "ALTER TABLE T ALTER COLUMN X SET NOT NULL",
+    };
+    let before = db.scan("T").unwrap_or_default();
+    let out = db.exec(sql);
+    rep.count(&format!("alter_{}_violating_row_{}", kind, match pos { None => "none".to_string(), Some(0) => "first".into(), Some(p) if p + 1 == n => "last".into(), _ => "middle".into() }));
+    let violating = pos.is_some() && n >= if kind == "pk" || kind == "unique" { 2 } else { 1 };
+    let script = format!("{}\n=> {}", db.log.join(";\n"), out.brief());
+    if out.is_panic() || (out.is_ok() && violating) {
+        rep.fail(FailKind::Oracle, None, &format!("ALTER TABLE ({}) accepted although a stored row violates the new constraint", kind), &script);
+    } else if !out.is_ok() && !violating {
+        rep.fail(FailKind::ModelDiff, None, &format!("ALTER TABLE ({}) refused although the stored rows satisfy the new constraint", kind), &script);
+    } else if db.scan("T").unwrap_or_default() != before {
+        rep.fail(FailKind::Oracle, None, "ALTER TABLE ADD CONSTRAINT changed the rows", &script);
+    }
+    // enforcement afterwards: only if accepted
+    let viol = match kind { "fk" => "INSERT INTO T VALUES (70, 99, 0)", "not_null" | "pk_null" => "INSERT INTO T VALUES (70, NULL, 0)", _ => "INSERT INTO T VALUES (70, 1, 0)" };
+    if kind != "pk_null" {
+        let ins = db.exec(viol);
+        if out.is_ok() && ins.is_ok() {
+            rep.fail(FailKind::Oracle, None, &format!("row violating the constraint added by an accepted ALTER ({}) was stored", kind), &format!("{}\n{} => {}", script, viol, ins.brief()));
+        } else if out.is_err() && !ins.is_ok() {
+            rep.fail(FailKind::Oracle, None, &format!("a rejected ALTER ({}) left the constraint in the schema", kind), &format!("{}\n{} => {}", script, viol, ins.brief()));
+        }
+    }
+    rep.case(&format!("alter {} n={} pos={:?}", kind, n, pos), n >= 2);
+}
+
+fn alter_probes(rep: &mut Report) {
+    let s = |x: &str| Some(x.to_string());
+    // (predicate, a row that satisfies it, a row that makes it FALSE, a row that makes it NULL)
+    let shapes: Vec<(P, ARow, ARow)> = vec![
+        (P::Between(1, 1, 3, false), (0, Some(2), Some(0), s("abc")), (0, Some(5), Some(0), s("abc"))),
+        (P::Between(2, 0, 2, true), (0, Some(2), Some(5), s("abc")), (0, Some(2), Some(1), s("abc"))),
+        (P::In(1, vec![1, 2, 3], false), (0, Some(3), Some(0), s("abc")), (0, Some(4), Some(0), s("abc"))),
+        (P::In(1, vec![4, 5], true), (0, Some(3), Some(0), s("abc")), (0, Some(4), Some(0), s("abc"))),
+        (P::Like("ab%", false), (0, Some(1), Some(0), s("abc")), (0, Some(1), Some(0), s("xyz"))),
+        (P::Like("ab%", true), (0, Some(1), Some(0), s("xyz")), (0, Some(1), Some(0), s("abd"))),
+        (P::Cmp(">", 1, 0), (0, Some(1), Some(0), s("abc")), (0, Some(0), Some(0), s("abc"))),
+        (P::CmpCols("<="), (0, Some(1), Some(2), s("abc")), (0, Some(3), Some(2), s("abc"))),
+        (P::Arith("<", 6), (0, Some(1), Some(2), s("abc")), (0, Some(4), Some(4), s("abc"))),
+        (P::IsNull(1, true), (0, Some(1), Some(2), s("abc")), (0, None, Some(2), s("abc"))),
+        (P::IsNull(2, false), (0, Some(1), None, s("abc")), (0, Some(1), Some(2), s("abc"))),
+        (P::And(Box::new(P::Between(1, 1, 3, false)), Box::new(P::Cmp(">=", 2, 0))), (0, Some(2), Some(0), s("abc")), (0, Some(9), Some(0), s("abc"))),
+        (P::Or(Box::new(P::Between(1, 1, 3, false)), Box::new(P::Cmp(">", 2, 7))), (0, Some(2), Some(0), s("abc")), (0, Some(9), Some(0), s("abc"))),
+        (P::Not(Box::new(P::Between(1, 4, 6, false))), (0, Some(2), Some(0), s("abc")), (0, Some(5), Some(0), s("abc"))),
+        (P::Not(Box::new(P::Or(Box::new(P::In(1, vec![5], false)), Box::new(P::Like("x%", false))))), (0, Some(2), Some(0), s("abc")), (0, Some(5), Some(0), s("abc"))),
+    ];
+    for (pred, good, bad) in &shapes {
+        assert!(pred.eval(good) == Some(true) && pred.eval(bad) == Some(false), "probe table wrong for {}", pred.sql());
+        for n in 1..=4usize {
+            for pos in (0..n).map(Some).chain(std::iter::once(None)) {
+                let mut rows: Vec<ARow> = (0..n).map(|j| { let mut r = if Some(j) == pos { bad.clone() } else { good.clone() }; r.0 = j as i64 + 1; r }).collect();
+                // a NULL-valued row never violates
+                let mut nullrow = good.clone();
+                nullrow = (n as i64 + 1, None, None, None);
+                if pred.eval(&nullrow) != Some(false) {
+                    rows.push(nullrow);
+                }
+                run_alter_check("alter-check-probe", &rows, pred, rep);
+                rep.count("alter_check_probes");
+            }
+        }
+    }
+    for kind in ["pk", "pk_null", "unique", "fk", "not_null"] {
+        for n in 1..=4usize {
+            for pos in (0..n).map(Some).chain(std::iter::once(None)) {
+                if (kind == "pk" || kind == "unique") && n == 1 && pos.is_some() {
+                    continue;
+                }
+                run_alter_key(kind, n, pos, rep);
+                rep.count("alter_key_probes");
+            }
+        }
+    }
+}
+
 fn li(v: &[i64]) -> Vec<Lit> {
     v.iter().map(|i| if *i < 0 { Lit::Null } else { Lit::I(*i) }).collect()
 }
@@ -397,6 +646,22 @@ fn main() {
         run_unique_index_case(&mut r, &mut rep, 100001, Some(vec![
             St::Ins { rows: vec![li(&[1, 2, 3]), li(&[5, 0, 3]), li(&[4, 0, 0])], replace: false },
         ]));
+    }
+    alter_probes(&mut rep);
+    for k in 0..args.n(4000, 80000) {
+        let mut r = rng.fork();
+        let n = 1 + r.below(5) as usize;
+        let rows: Vec<ARow> = (0..n).map(|j| gen_arow(&mut r, j as i64 + 1)).collect();
+        // bias towards "first row fine, a later row violates"
+        let mut pred = gen_pred(&mut r, 2);
+        for _ in 0..6 {
+            let fb = rows.iter().position(|x| pred.eval(x) == Some(false));
+            if matches!(fb, Some(p) if p > 0) || r.chance(1, 3) {
+                break;
+            }
+            pred = gen_pred(&mut r, 2);
+        }
+        run_alter_check(&format!("alter-check-gen{}", k), &rows, &pred, &mut rep);
     }
     for c in uidx_scenarios() {
         run_ucase(&c, &mut rep);
